@@ -39,6 +39,10 @@ func TestC18Inputs(t *testing.T) {
 	rapid.Check(t, func(rt *rapid.T) {
 		u := hist.NewU(rt)
 		o := hist.FarmOpts{A: u.N(3, "A"), B: 3 + u.N(3, "B"), Eth: u.N(4, "eth"), Var: u.N(1000, "var")}
+		o.Restart = u.N(3, "restarted") == 0
+		if o.Restart {
+			h.Class("subject-restarted-after-prefix", 1)
+		}
 		c := &Case{Mode: "inputs", Seed: fmt.Sprintf("c18-%d", h.Seed), Opts: o}
 		p, err := newPair(c.Seed, o, true)
 		if err != nil {
